@@ -75,6 +75,17 @@ pub fn c17(ctx: &Ctx) -> Report {
         let m = AdsrM::new(fs, ext_f.clone(), ext_f.clone());
         explore(m, &ExploreCfg { max_depth: Some(depth), state_cap: 60_000_000, threads: ctx.threads, label: format!("adsr extreme arguments at {} Hz, depth {}", fs, depth) }, &mut rep, P);
     }
+    // ADSR, narrower alphabet but deeper: a long phase started, ticked, then shortened (and the reverse)
+    for fs in [100.0f32, 250.0, 192000.0] {
+        let m = AdsrM::new(fs, vec![0.0, 0.0011, 20.0, f32::MAX], vec![0.0, 1.0]);
+        let d = if thorough { 7 } else { 6 };
+        explore(m, &ExploreCfg { max_depth: Some(d), state_cap: 60_000_000, threads: ctx.threads, label: format!("adsr range end points at {} Hz, depth {}", fs, d) }, &mut rep, P);
+    }
+    // MIDI: more simultaneously held notes than the receiver can remember (stuck keys), and everything around it
+    {
+        let a = crate::p_midi::Alphabet { notes: vec![60], vels: vec![100], k: 40, modes: false, polls: false, ccs: vec![], bends: vec![], foreign: false, edge_note: Some(61) };
+        explore(crate::p_midi::MidiM::new(0, a), &ExploreCfg { max_depth: None, state_cap: 20_000_000, threads: ctx.threads, label: "midi: up to 40 outstanding note-ons (beyond the 32 the receiver remembers)".into() }, &mut rep, P);
+    }
     // LFO
     for fs in rates {
         let freqs = vec![0.0, f32::from_bits(1), fs / 16777216.0, fs / 2.0, f32::from_bits(fs.to_bits() - 1), fs];
